@@ -8,6 +8,7 @@ M = [
  ("C02", "debool_accepts_empty", "ccl/rslang/src/ASTInterpreter.cpp", "if (value.B().Cardinality() != 1) {", "if (value.B().Cardinality() > 1) {"),
  ("C02", "cache_reference_dangles", "ccl/rslang/src/SDImplementation.cpp", "    current = boolean->GetCache(counter);\n  } else {\n    auto newData = Factory::EmptySet();\n    for (const auto& iter : itemIterators) {\n      newData.ModifyB().AddElement(*iter);\n    }\n    current = boolean->SaveCache(counter, newData);\n  }\n  return *current;", "    return boolean->GetCache(counter);\n  } else {\n    auto newData = Factory::EmptySet();\n    for (const auto& iter : itemIterators) {\n      newData.ModifyB().AddElement(*iter);\n    }\n    return boolean->SaveCache(counter, newData);\n  }"),
  ("C02", "recursion_type_of_step", "ccl/rslang/src/TypeAuditor.cpp", "  iterationValue = mergeWith(iterationValue.value(), initType.value());\n", ""),
+ ("C04", "prune_ignores_shape", "ccl/core/src/semantic/rsmodel/rsValuesFacet.cpp", "  if (data.Structure() != type.Structure() ||\n      (data.IsTuple() && data.T().Arity() != type.T().Arity())) {\n    return false;\n  }\n", ""),
  ("C04", "silent_failure_struct", "ccl/rslang/src/TypeAuditor.cpp", "    if (!type.IsCollection()) {\n      OnError(SemanticEID::globalStructure, iter(0).pos.finish);\n      return false;", "    if (!type.IsCollection()) {\n      return false;"),
  ("C04", "loader_at_missing_uid", "ccl/core/src/JSON.cpp", "    if (!model.Contains(uid)) {\n      continue; // Note: data for a missing constituent is ignored\n    }\n", ""),
  ("C07", "no_graph_update_on_edit", "ccl/core/src/semantic/schema/Schema.cpp", "    if (realChange) {\n      graph.UpdateFor(target);\n", "    if (realChange) {\n"),
